@@ -113,6 +113,7 @@ def main(tier, replay=None):
     camp.run([], [runtime_exec(rng) for _ in range(20 if quick else 300)] + [runtime_exec(rng, big=True) for _ in range(2 if quick else 10)],
              "runtime-types")
     camp.run([], [thread_exec(rng, n) for n in (2, 4, 8, 16) for _ in range(3 if quick else 40)], "threads", sample=False)
+    camp.run([], [["reset", "decl 0", "nulltype"]], "null-type", sample=False)
     chk.cov["rule"] = ("an execution = a sequence of lookups (8 entry points) / casts / run-time type constructions in a fresh process "
                        "(cold caches), or n threads doing first lookups concurrently; every answer is judged by TLC against the "
                        "declaration found by an independent by-name scan of the raw type record; distinct = different sequence")
